@@ -1,71 +1,120 @@
 /-
-  C15 line-protocol driver: executes schedules on the MODEL (Vita.C15.Exec).  One macro step per
-  line = what a real thread does between two scheduling points of the harness:
+  C15 line-protocol driver: executes schedules on the MODEL (Vita.C15.Exec, the canonical discipline:
+  std::shared_mutex by its specification, shared for find/save, exclusive for the others).  One macro
+  step per line = what a real thread does between two scheduling points of harness/c15_sched.cc.
 
   Each line is `<step> = <what the harness observed on the real threads>`; the driver checks that
   the observed transition is a transition of the model (answers `ok`, else `REJECT <why>`; after a
   REJECT the rest of that schedule is answered `skip`):
-    init <L> <n> <ref> = init             (ref = 1: the reference variant of find)
-    facq t k = ok|blocked    fcmp t = ok    fret t = ok[ woke p]    rcopy t = r none | r k:id … (L words)
-    wacq t k id = ok|blocked wwr t = ok     wrel t = ok[ woke p]
-    cacq t / cinv t / crel t  (clear())     kacq t k / kinv t / krel t  (clear(key))
+    init <L> <n> [<disc>] = init          (disc: 7 characters as in the harness; default S0XXXSX = canonical;
+                                           only recorded corpus traces name another one)
+    facq t k | pacq t k = ok|blocked      fcmp t = ok     fret t = ok[ woke p]     rcopy t = r none | r k:id … (L words)
+    peval t = ok     pret t = r k:id …                                  (evaluator_proxy::operator())
+    wacq t k id = ok|blocked     wwr t = ok     wrel t = ok[ woke p]
+    cacq t / cinv t / crel t  (clear())         kacq t k / kinv t / krel t  (clear(key))
+    sacq t = ok|blocked   spt t = ok   srel t = ok[ woke p]   sres t = s@<seal> <k>/<w>,<w>… …
+    lacq t <seal> <1|0> k:id … = ok|blocked     lent t = ok     lrel t = ok[ woke p]     lres t = 1|0
   `blocked`: the thread did not get the lock within the probe time and is now pending; `woke p`: the
   pending thread p got the lock as a consequence of this release.
+  Keys 1..7 share slot 5, the keys from 8 on live in slot `k % 16` (as in the harness).
 -/
 import Vita.C15.Exec
 open Vita.C15
 
+def drvCfg (l : Nat) : Cfg := ⟨l, 4294967295, fun k => if k < 8 then 5 else k % 16, List.range 128⟩
+
 structure St where
   n : Nat := 0
-  ref : Bool := false
-  s : S := S.init 1
+  c : Cfg := drvCfg 1
+  s : S := S.init (drvCfg 1)
+  d : Disc := Disc.canonical
   pend : Option (Tid × Act) := none
+  eps : List (Tid × Nat) := []        -- the seal a thread's save saw
   dead : Bool := true
+
+def lkOfChar : Char → Option LK
+  | 'N' => some .none
+  | 'S' => some .shared
+  | 'X' => some .excl
+  | _ => none
+
+def discOfString (w : String) : Option Disc :=
+  match w.toList with
+  | [f, r, i, c, k, s, l] =>
+    match lkOfChar f, lkOfChar i, lkOfChar c, lkOfChar k, lkOfChar s, lkOfChar l with
+    | some f, some i, some c, some k, some s, some l => some ⟨f, r == '1', i, c, k, s, l⟩
+    | _, _, _, _, _, _ => none
+  | _ => none
+
+def showTok (w : Tok) : String := toString w.1 ++ ":" ++ toString w.2
 
 def showRes : Option (List Tok) → String
   | none => "r none"
-  | some v => v.foldl (fun acc w => acc ++ " " ++ toString w.1 ++ ":" ++ toString w.2) "r"
+  | some v => v.foldl (fun acc w => acc ++ " " ++ showTok w) "r"
+
+def showSave (ep : Nat) (out : List (Key × List Tok)) : String :=
+  out.foldl (fun acc e => acc ++ " " ++ toString e.1 ++ "/" ++ ",".intercalate (e.2.map showTok)) ("s@" ++ toString ep)
 
 def runActs (st : St) (as : List Act) : Option St :=
-  match execs st.ref st.n st.s as with
+  match execs st.d st.c st.n st.s as with
   | some s' => some { st with s := s' }
   | none => none
 
 def reject (st : St) (why : String) : St × String := ({ st with dead := true }, "REJECT " ++ why)
 
-/-- does some thread other than `t` hold the shared lock? -/
-def otherReader (st : St) (t : Tid) : Bool := (List.range st.n).any fun u => u != t && (st.s.th u).isR
+/-- does some thread other than `t` hold the lock in shared mode? -/
+def otherReader (st : St) (t : Tid) : Bool :=
+  (List.range st.n).any fun u => u != t && lockOf st.d (st.s.th u) == .shared
 
 /-- an acquisition together with what the harness observed (`ok` = the thread got the lock,
     `blocked` = it did not within the probe time).  A lock that excludes MORE than the specification
     (a reader kept waiting by another reader, e.g. std::mutex) is accepted: the thread is pending. -/
-def acquire (st : St) (t : Tid) (a : Act) (shared : Bool) (obs : List String) : St × String :=
-  match obs, exec st.ref st.n st.s a with
-  | ["ok"], some s' => ({ st with s := s' }, "ok")
-  | ["ok"], none => reject st "lock-acquired-although-the-specification-forbids-it"
+def acquire (st : St) (t : Tid) (as : List Act) (shared : Bool) (obs : List String) : St × String :=
+  match as with
+  | [] => reject st "bad-step"
+  | a :: _ =>
+  match obs, runActs st as with
+  | ["ok"], some st' => (st', "ok")
+  | ["ok"], none =>
+    match step1 st.d st.c st.s a with
+    | some _ => reject st "lock-acquired-although-the-specification-forbids-it"
+    | none => reject st "step-not-enabled-in-the-model"
   | ["blocked"], none =>
-    if t < st.n ∧ st.s.th t = .idle ∧ st.pend.isNone then ({ st with pend := some (t, a) }, "ok")
+    if t < st.n ∧ (step1 st.d st.c st.s a).isSome ∧ st.pend.isNone then ({ st with pend := some (t, a) }, "ok")
     else reject st "bad-step"
   | ["blocked"], some _ =>
     if shared ∧ otherReader st t ∧ st.pend.isNone then ({ st with pend := some (t, a) }, "ok")
     else reject st "blocked-although-nobody-holds-a-conflicting-lock"
   | _, _ => reject st "bad-observation"
 
+/-- what a pending acquisition is followed by once the lock is there -/
+def afterWake (a : Act) : List Act :=
+  match a with
+  | .sAcquire t => [.sStart t]
+  | _ => []
+
 /-- a step that gives a lock back, with the observed wake-up of the pending thread -/
 def release (st : St) (obs : List String) : St × String :=
   match obs, st.pend with
   | ["ok"], none => (st, "ok")
   | ["ok"], some (_, a) =>
-    match exec st.ref st.n st.s a with
+    match exec st.d st.c st.n st.s a with
     | some _ => reject st "pending-thread-not-woken-although-the-lock-is-free"
     | none => (st, "ok")
   | ["ok", "woke", p], some (t, a) =>
     if p.toNat? = some t then
-      match exec st.ref st.n st.s a with
-      | some s' => ({ st with s := s', pend := none }, "ok")
+      match runActs st (a :: afterWake a) with
+      | some st' => ({ st' with pend := none }, "ok")
       | none => reject st "pending-thread-got-the-lock-although-the-specification-forbids-it"
     else reject st "bad-observation"
   | _, _ => reject st "bad-observation"
+
+def parseTok (w : String) : Option Tok :=
+  match w.splitOn ":" with
+  | [a, b] => match a.toNat?, b.toNat? with
+    | some x, some y => some (x, y)
+    | _, _ => none
+  | _ => none
 
 def step (st : St) (line : String) : St × String :=
   match line.trimAscii.toString.splitOn " = " with
@@ -75,59 +124,113 @@ def step (st : St) (line : String) : St × String :=
     match toks with
     | [] => (st, "bad-op")
     | cmd :: args =>
+      if cmd == "init" then
+        let (nums, disc) : List String × Option Disc :=
+          match args with
+          | [l, n, w] => ([l, n], discOfString w)
+          | _ => (args, some Disc.canonical)
+        match nums.mapM String.toNat?, disc with
+        | some [l, n], some d =>
+          if l ≥ 1 ∧ l ≤ 64 ∧ n ≥ 1 ∧ n ≤ 64 then
+            ({ n := n, c := drvCfg l, s := S.init (drvCfg l), d := d, pend := none, eps := [], dead := false }, "ok")
+          else (st, "bad-op")
+        | _, _ => (st, "bad-op")
+      else if st.dead then (st, "skip")
+      else if cmd == "lacq" then
+        match args with
+        | t :: sl :: ok :: es =>
+          match t.toNat?, sl.toNat?, ok.toNat?, es.mapM parseTok with
+          | some t, some sl, some ok, some es => acquire st t [.lAcquire t sl es (ok == 1)] false obs
+          | _, _, _, _ => (st, "bad-op")
+        | _ => (st, "bad-op")
+      else
       match args.mapM String.toNat? with
       | none => (st, "bad-op")
       | some xs =>
-        if cmd == "init" then
-          match xs with
-          | [l, n, r] =>
-            if l ≥ 1 ∧ l ≤ 64 ∧ n ≥ 1 ∧ n ≤ 64 then
-              ({ n := n, ref := r == 1, s := S.init l, pend := none, dead := false }, "ok")
-            else (st, "bad-op")
-          | _ => (st, "bad-op")
-        else if st.dead then (st, "skip")
-        else
         let run (as : List Act) (k : St → St × String) : St × String :=
           match runActs st as with
           | some st' => k st'
           | none => reject st "step-not-enabled-in-the-model"
+        let cmpRes (_t : Tid) (st1 : St) (r : Option (List Tok)) (next : List Act) : St × String :=
+          match runActs st1 next with
+          | some st2 =>
+            if showRes r == " ".intercalate obs then (st2, "ok")
+            else reject st2 ("lookup-differs model=" ++ (showRes r).replace " " "_")
+          | none => reject st "step-not-enabled-in-the-model"
         match cmd, xs with
-        | "facq", [t, k] => acquire st t (.fAcquire t k) true obs
+        | "facq", [t, k] => acquire st t [.fAcquire t k] true obs
+        | "pacq", [t, k] => acquire st t [.fAcquire t k] true obs
         | "fcmp", [t] => run [.fCheck t] fun st' => (st', "ok")
         | "fret", [t] =>
           match st.s.th t with
           | .fCopy _ acc =>
-            run ((List.replicate (st.s.L - acc.length) (Act.fCopyWord t)) ++ [.fRelease t]) (release · obs)
+            run ((List.replicate (st.c.L - acc.length) (Act.fCopyWord t)) ++ [.fRelease t]) (release · obs)
           | .fMissed _ => run [.fRelease t] (release · obs)
-          | .rCopy _ _ => release st obs
+          | .rCopy .. => release st obs          -- (reference variant) the lock went back at the comparison
           | _ => reject st "step-not-enabled-in-the-model"
         | "rcopy", [t] =>
-          let fin (st1 : St) : St × String :=
-            match st1.s.th t with
-            | .fDone _ r =>
-              match runActs st1 [.fReturn t] with
-              | some st2 =>
-                if showRes r == " ".intercalate obs then (st2, "ok")
-                else reject st2 ("lookup-differs model=" ++ (showRes r).replace " " "_")
-              | none => reject st "step-not-enabled-in-the-model"
-            | _ => reject st "step-not-enabled-in-the-model"
           match st.s.th t with
-          | .fDone _ _ => fin st
-          | .rCopy _ acc =>
-            run ((List.replicate (st.s.L - acc.length) (Act.fCopyWord t)) ++ [.fRelease t]) fin
+          | .fDone _ r => cmpRes t st r [.fReturn t]
+          | .rCopy k acc =>
+            -- (reference variant) the caller copies now, through the reference
+            match runActs st ((List.replicate (st.c.L - acc.length) (Act.fCopyWord t)) ++ [.fRelease t]) with
+            | some st1 =>
+              match st1.s.th t with
+              | .fDone _ r => cmpRes t st1 r [.fReturn t]
+              | _ => reject st "step-not-enabled-in-the-model"
+            | none => let _ := k; reject st "step-not-enabled-in-the-model"
           | _ => reject st "step-not-enabled-in-the-model"
-        | "wacq", [t, k, id] => acquire st t (.wAcquire t k id) false obs
+        | "peval", [t] => run [.pMiss t] fun st' => (st', "ok")
+        | "pret", [t] =>
+          match st.s.th t with
+          | .fDone _ (some v) => cmpRes t st (some v) [.pHit t, .pReturn t]
+          | .pDone _ v => cmpRes t st (some v) [.pReturn t]
+          | _ => reject st "step-not-enabled-in-the-model"
+        | "wacq", [t, k, id] => acquire st t [.wAcquire t k id] false obs
         | "wwr", [t] =>
           match st.s.th t with
-          | .wLocked _ _ => run (.wKey t :: List.replicate st.s.L (Act.wWord t)) fun st' => (st', "ok")
+          | .wLocked .. => run (.wKey t :: List.replicate st.c.L (Act.wWord t) ++ [.wSeal t]) fun st' => (st', "ok")
           | _ => reject st "step-not-enabled-in-the-model"
         | "wrel", [t] => run [.wRelease t] (release · obs)
-        | "cacq", [t] => acquire st t (.cAcquire t) false obs
-        | "kacq", [t, _] => acquire st t (.cAcquire t) false obs
-        | "cinv", [t] => run [.cInvalidate t] fun st' => (st', "ok")
-        | "kinv", [t] => run [.cInvalidate t] fun st' => (st', "ok")
+        | "cacq", [t] => acquire st t [.cAcquire t] false obs
+        | "cinv", [t] => run [.cBump t] fun st' => (st', "ok")
         | "crel", [t] => run [.cRelease t] (release · obs)
-        | "krel", [t] => run [.cRelease t] (release · obs)
+        | "kacq", [t, k] => acquire st t [.kAcquire t k] false obs
+        | "kinv", [t] => run [.kInv t] fun st' => (st', "ok")
+        | "krel", [t] => run [.kRelease t] (release · obs)
+        | "sacq", [t] => acquire st t [.sAcquire t, .sStart t] true obs
+        | "spt", [t] =>
+          match st.s.th t with
+          | .sRun .. => (st, "ok")
+          | _ => reject st "step-not-enabled-in-the-model"
+        | "srel", [t] =>
+          match st.s.th t with
+          | .sRun rest _ =>
+            let st0 := { st with eps := (t, st.s.mem.ep) :: st.eps.filter (·.1 != t) }
+            match runActs st0 (List.replicate rest.length (Act.sSlot t) ++ [.sEnd t]) with
+            | some st' => release st' obs
+            | none => reject st "step-not-enabled-in-the-model"
+          | _ => reject st "step-not-enabled-in-the-model"
+        | "sres", [t] =>
+          match st.s.th t with
+          | .sDone out =>
+            let ep := ((st.eps.find? (·.1 == t)).map (·.2)).getD 0
+            match runActs st [.sReturn t] with
+            | some st2 =>
+              if showSave ep out == " ".intercalate obs then (st2, "ok")
+              else reject st2 ("save-differs model=" ++ (showSave ep out).replace " " "_")
+            | none => reject st "step-not-enabled-in-the-model"
+          | _ => reject st "step-not-enabled-in-the-model"
+        | "lent", [t] => run [.lEntry t] fun st' => (st', "ok")
+        | "lrel", [t] =>
+          match st.s.th t with
+          | .lRun _ es _ => run (List.replicate es.length (Act.lEntry t) ++ [.lSeal t, .lRelease t]) (release · obs)
+          | _ => reject st "step-not-enabled-in-the-model"
+        | "lres", [t] =>
+          match lastOf t st.s.lin with
+          | some (.load _ _ _ ok) =>
+            if obs == [if ok then "1" else "0"] then (st, "ok") else reject st "load-result-differs"
+          | _ => reject st "step-not-enabled-in-the-model"
         | _, _ => (st, "bad-op")
   | _ => (st, "bad-op")
 
